@@ -97,7 +97,11 @@ func SpellV(prog []item, v int) string {
 				b.WriteString("(function " + it.N + "(" + pl + "){")
 				closers = append(closers, "});")
 			case "ar":
-				b.WriteString("((" + pl + ")=>{")
+				if v >= 0 && len(it.Ps) == 1 && it.Ps[0].D == "" && !strings.HasPrefix(pl, "...") && (v+nblk)%2 == 0 {
+					b.WriteString("(" + pl + "=>{") // a single parameter without parentheses: recognised as a parameter only at '=>'
+				} else {
+					b.WriteString("((" + pl + ")=>{")
+				}
 				closers = append(closers, "});")
 			case "blk":
 				sp := blockSpellings[0]
